@@ -1,6 +1,10 @@
 package h
 
-import "strings"
+import (
+	"fmt"
+	"strconv"
+	"strings"
+)
 
 var joinSpellings = map[string][]string{
 	"inner": {"JOIN", "INNER JOIN", "HASH_JOIN", "STRAIGHT_JOIN", "PARALLEL JOIN", "PARALLEL HASH_JOIN", "PARALLEL STRAIGHT_JOIN"},
@@ -68,7 +72,149 @@ func checkC04(c Node) Verdict {
 			}
 		}
 	}
+	// the aliases are bound names: the specification's result does not depend on how they are spelled. The same case
+	// under aliases one of which begins with the other, in both assignments
+	if !wantErr {
+		for _, ren := range []map[string]string{{"x": "t", "y": "t2"}, {"x": "t2", "y": "t"}, {"x": "orders", "y": "ord"}} {
+			wantR := make([]any, len(want))
+			for i, r := range want {
+				row := map[string]any{}
+				for k, val := range r.(map[string]any) {
+					if nk, ok := ren[k]; ok {
+						k = nk
+					}
+					row[k] = val
+				}
+				wantR[i] = row
+			}
+			for _, kw := range joinSpellings[from["type"].(string)] {
+				if strings.HasPrefix(kw, "PARALLEL") {
+					continue
+				}
+				sig := append(append([]string{}, base...), "kw:"+strings.ReplaceAll(kw, " ", "_"), "aliases:"+ren["x"]+"/"+ren["y"])
+				sql := Style{}.Query(renameAliases(With(q, "from", With(from, "kw", kw)), ren).(Node))
+				out := Run(FromTagged(c["doc"]).(map[string]any), sql, false)
+				v.Execs++
+				if out.Panic != nil || out.Err != nil || !BagEqual(out.Rows, wantR) {
+					return fail("result", sql, sig, "aliases renamed; as multisets: want %s got %s", Canon(any(wantR)), out.Describe())
+				}
+			}
+		}
+	}
+	return v
+}
+
+// renameAliases renames table aliases and the qualifiers of column paths throughout a query.
+func renameAliases(v any, ren map[string]string) any {
+	switch t := v.(type) {
+	case map[string]any:
+		out := Node{}
+		for k, x := range t {
+			out[k] = renameAliases(x, ren)
+		}
+		if as, ok := t["as"].(string); ok {
+			if n, ok := ren[as]; ok {
+				out["as"] = n
+			}
+		}
+		if t["k"] == "col" {
+			if p := seq(t["p"]); len(p) > 1 {
+				if n, ok := ren[p[0].(string)]; ok {
+					out["p"] = append([]any{n}, p[1:]...)
+				}
+			}
+		}
+		return out
+	case []any:
+		out := make([]any, len(t))
+		for i, x := range t {
+			out[i] = renameAliases(x, ren)
+		}
+		return out
+	}
 	return v
 }
 
 func init() { Replay["C04"] = checkC04 }
+
+// C04 at volume. Joins.tla groups the rows of a side by the text of their key and pairs groups whose texts are EQUAL
+// (HashCore / NestedCore): the model's key identity is injective. TLC checks that on tables of a few rows; whether the
+// engine's catalog keeps distinct key texts apart can only show among very many distinct keys. This driver instantiates
+// HashCore on two tables of n rows with pairwise distinct keys per side (l: 0..n-1, r: shift..shift+n-1), where the
+// model's result is known in closed form - one pair per common key, in left order; a left join adds one NULL-extended
+// row per left key without partner - and compares the engine's rows with it (keys as float64, as int and as strings).
+func init() {
+	Drivers["C04:volume"] = func(emit func(Verdict)) {
+		n, shift := 560000, 300000
+		kinds := []string{"float64", "int"}
+		if Tier == "thorough" {
+			n, shift = 1100000, 300000
+			kinds = append(kinds, "string")
+		}
+		for _, kind := range kinds {
+			key := func(i int) any {
+				switch kind {
+				case "int":
+					return i
+				case "string":
+					return "user-" + strconv.Itoa(i)
+				}
+				return float64(i)
+			}
+			mk := func(from int) []any {
+				rows := make([]any, n)
+				for i := range rows {
+					rows[i] = map[string]any{"k": key(from + i)}
+				}
+				return rows
+			}
+			for _, ty := range []string{"JOIN", "LEFT JOIN", "PARALLEL HASH_JOIN"} {
+				sql := "SELECT x.k AS a, y.k AS b FROM l x " + ty + " r y ON x.k = y.k"
+				sig := []string{"volume", "kind:" + kind, "join:" + ty}
+				v := Verdict{OK: true, SQL: sql, Sig: sig, Execs: 1, Nontrivial: true}
+				out := Run(map[string]any{"l": mk(0), "r": mk(shift)}, sql, false)
+				if out.Panic != nil || out.Err != nil {
+					v = fail("result", sql, sig, "%d rows a side, %s keys: %s", n, kind, out.Describe())
+				} else {
+					// the model's result as a bag: a = b = k for every common key k, (k, NULL) for the others in a left join
+					seen := map[string]int{}
+					bad := ""
+					for _, r := range out.Rows {
+						row, _ := r.(map[string]any)
+						a, b := row["a"], row["b"]
+						if b != nil && fmt.Sprint(a) != fmt.Sprint(b) {
+							bad = fmt.Sprintf("a row pairs the unequal keys %v and %v", a, b)
+							break
+						}
+						seen[fmt.Sprint(a)+"|"+fmt.Sprint(b != nil)]++
+					}
+					want := n - shift
+					if ty == "LEFT JOIN" {
+						want = n
+					}
+					if bad == "" && len(out.Rows) != want {
+						bad = fmt.Sprintf("%d rows, the model has %d", len(out.Rows), want)
+					}
+					if bad == "" {
+						for i := 0; i < n; i++ {
+							matched := i >= shift
+							if !matched && ty != "LEFT JOIN" {
+								continue
+							}
+							if seen[fmt.Sprint(key(i))+"|"+fmt.Sprint(matched)] != 1 {
+								bad = fmt.Sprintf("left key %v occurs %d times (partner present: %v), the model has it once", key(i), seen[fmt.Sprint(key(i))+"|"+fmt.Sprint(matched)], matched)
+								break
+							}
+						}
+					}
+					if bad != "" {
+						v = fail("result", sql, sig, "%d rows a side with pairwise distinct %s keys, %d in common: %s", n, kind, n-shift, bad)
+					}
+				}
+				v.Key = kind + "/" + ty
+				v.Case = Node{"sql": sql, "kind": kind, "n": n, "shift": shift}
+				emit(v)
+			}
+		}
+	}
+}
